@@ -48,7 +48,8 @@ theorem parseLoop_char (fuel : Nat) (ws : Str) (c : Ch) (r : Str) (pos : Nat) (p
           if !has expected LParen then .error (.math (pos + ws.length + 1))
           else parseLoop fuel r (pos + ws.length + 1) (prio + 10) (Primary + LParen + Sign + NullaryCall) acc
         else if c == 41 then
-          if has expected NullaryCall then parseLoop fuel r (pos + ws.length + 1) (prio - 10) (Operator + RParen) ({ type := .null } :: acc)
+          if prio - 10 < 0 then .error (.math (pos + ws.length + 1))
+          else if has expected NullaryCall then parseLoop fuel r (pos + ws.length + 1) (prio - 10) (Operator + RParen) ({ type := .null } :: acc)
           else if !has expected RParen then .error (.math (pos + ws.length + 1))
           else parseLoop fuel r (pos + ws.length + 1) (prio - 10) (Operator + RParen) acc
         else .error (.math (pos + ws.length))) := by
@@ -225,8 +226,9 @@ theorem lex (s : Sx) : ∀ (d fuel : Nat) (k : Str) (pos : Nat) (expected : Nat)
     simp only [show isOperator 41 = false by decide, show ((41:Nat) == 40) = false by decide]
     have hN : has e.expAfter NullaryCall = false := by rcases e.expAfter_cases with h | h <;> rw [h] <;> decide
     have hR : has e.expAfter RParen = true := by rcases e.expAfter_cases with h | h <;> rw [h] <;> decide
-    simp only [Bool.false_eq_true, if_false, beq_self_eq_true, if_true, hN, hR, Bool.not_true]
     have hd' : 10 * ((d + 1 : Nat) : Int) - 10 = 10 * (d : Int) := by push_cast; omega
+    have hnn : ¬ (10 * ((d + 1 : Nat) : Int) - 10 < 0) := by rw [hd']; omega
+    simp only [Bool.false_eq_true, if_false, beq_self_eq_true, if_true, hN, hR, Bool.not_true, hnn]
     have hpos : pos + ws1.length + 1 + e.render.length + ws2.length + 1 = pos + (ws1 ++ 40 :: (e.render ++ (ws2 ++ [41]))).length := by
       simp [List.length_append]; omega
     rw [hd', hpos]
